@@ -56,7 +56,13 @@ ASSUMPTIONS = ["nn.Module.train(mode) / load_state_dict visit every submodule an
                "parameters are changed only by optimiser steps in training mode or by load_state_dict (direct edits in eval mode are excluded by the property)",
                "the CG settings cell (max_cholesky_size(0), cg_tolerance 1e-10) is compared at 2e-4 (observed 2e-5: linear_operator's CG leaves a "
                "relative residual ~1e-8, amplified by the cancellation in Ktt - Kts A^-1 Kst); other cells at 1e-8; a divergence < 1e-2 that "
-               "disappears when the CG cell is replaced by the default cell is recorded as a linear_operator assumption failure, not a violation"]
+               "disappears when the CG cell is replaced by the default cell is recorded as a linear_operator assumption failure, not a violation",
+               "a fantasy model called under a settings pair that toggles lazily_evaluate_kernels has its strategy rebuilt from scratch; it is "
+               "compared with a second fantasy model that still holds the low-rank updated caches at 1e-6 (observed <= 2e-8: jitter of the "
+               "Cholesky-based root updates), every other fantasy pair at 1e-8; fantasy models of a source holding accuracy-degraded entries "
+               "are not compared",
+               "two model objects share state only through tensors handed to both constructors; the harness hands the SAME tensor objects "
+               "(train inputs / targets, inducing points, fixed noise) to both and never writes into them itself"]
 
 GEN = os.path.join(C.LEAN_DIR, "GPVerif", "Gen", "CacheTable.lean")
 KINDS = ["exact", "kiss", "sgpr", "svgp", "usvgp"]
